@@ -63,10 +63,11 @@ def machineResult (p : Path) (z : Int) : Option Int :=
 
 /-! ### storing a Python integer by value (`n_frac ≥ 0`) -/
 
-/-- `_format_inupt_val` + `set_val`: object path when the integer itself or its scaled value leaves int64,
-or the word has 64+ bits. -/
+/-- `_format_inupt_val` + `set_val`: object path when the integer itself, the conversion factor `2^n_frac` or the
+scaled value leaves int64, or the word has 64+ bits. -/
 def storeNeedsPyInt (f : Fmt) (v : Int) : Bool :=
-  !(decide (FitsI64 v)) || (decide (0 < f.nfrac) && !(decide (FitsI64 (v * 2 ^ f.nfrac.toNat)))) || decide (64 ≤ f.nword)
+  !(decide (FitsI64 v)) || decide (63 ≤ f.nfrac) ||
+    (decide (0 < f.nfrac) && !(decide (FitsI64 (v * 2 ^ f.nfrac.toNat)))) || decide (64 ≤ f.nword)
 
 /-- the scaled integer as the chosen carrier computes it. -/
 def machineScaled (f : Fmt) (v : Int) : Int :=
